@@ -200,7 +200,7 @@ fn ignore_attribute(f: &mut AttributeFilter, attr_type: AttributeType) -> bool {
     }
 
     if !f.fingerprint && attr_type == Fingerprint::get_type() {
-        f.message_integrity_sha256 = true;
+        f.fingerprint = true;
         return false;
     }
 
